@@ -288,7 +288,7 @@ theorem reset_fifo (s : Irc) : FifoStep s (reset s) := by
   have h0 : (h.pushAll [Ev.discarded s.pending]) = Hist.empty := rfl
   have := queueConnectMessages_fifo
     { s with lastTake := 0, afterConnect := false, lastPing := s.now, outstandingPing := false,
-             echoAcked := false, queue := Queue.empty, fast := [] } Hist.empty (blank_fifo _ rfl rfl)
+             echoAcked := false, labelAcked := false, queue := Queue.empty, fast := [] } Hist.empty (blank_fifo _ rfl rfl)
   show FifoInv _ (h.pushAll ([Ev.discarded s.pending] ++ _))
   rw [Hist.pushAll_append, h0]
   exact this
@@ -375,6 +375,7 @@ theorem step_fifo (s : Irc) (op : Op) : FifoStep s (step s op) := by
   | connected => exact FifoStep.of_same rfl rfl (fun _ => rfl)
   | pong => exact FifoStep.of_same rfl rfl (fun _ => rfl)
   | capEcho b => exact FifoStep.of_same rfl rfl (fun _ => rfl)
+  | capLabel b => exact FifoStep.of_same rfl rfl (fun _ => rfl)
   | config c => exact FifoStep.of_same rfl rfl (fun _ => rfl)
 
 theorem run_fifo : ∀ (ops : List Op) (s : Irc), FifoStep s (run s ops)
@@ -394,13 +395,13 @@ theorem FifoStep.classInv {s : Irc} {r : Irc × List Ev} (h : FifoStep s r) (hc 
 
 theorem dequeue_msg_classInv {limit now : Nat} {q q' : Queue} {m : Msg}
     (hq : q.dequeue limit now = (q', .msg m)) (hc : ClassInv q) : ClassInv q' := by
-  let s : Irc := ⟨⟨0, 0, false, false, 0, [], []⟩, 0, q, [], 0, false, false, 0, false, false, [], 0⟩
+  let s : Irc := ⟨⟨0, 0, false, false, 0, [], []⟩, 0, q, [], 0, false, false, 0, false, false, false, [], 0⟩
   have := dequeue_msg_fifo (s := s) (s' := { s with queue := q' }) hq (FifoInv.of_classInv s hc) rfl rfl rfl
   exact this.cls
 
 theorem dequeue_rotated_classInv {limit now : Nat} {q q' : Queue} {m : Msg}
     (hq : q.dequeue limit now = (q', .rotated m)) (hc : ClassInv q) : ClassInv q' := by
-  let s : Irc := ⟨⟨0, 0, false, false, 0, [], []⟩, 0, q, [], 0, false, false, 0, false, false, [], 0⟩
+  let s : Irc := ⟨⟨0, 0, false, false, 0, [], []⟩, 0, q, [], 0, false, false, 0, false, false, false, [], 0⟩
   have := dequeue_rotated_fifo (s := s) (s' := { s with queue := q' }) hq (FifoInv.of_classInv s hc) rfl rfl rfl
   exact this.cls
 
